@@ -485,7 +485,7 @@ func (s *BlockListSpec) decode(content *hcl.BodyContent, blockLabels []blockLabe
 			if u.Unknown() {
 				// If any block Body is unknown, then the entire block value
 				// must be unknown
-				return cty.UnknownVal(s.impliedType().WithoutOptionalAttributesDeep()), diags
+				return prepareBodyVal(cty.UnknownVal(s.impliedType().WithoutOptionalAttributesDeep()), childBlock.Body), diags
 			}
 		}
 
@@ -648,7 +648,7 @@ func (s *BlockTupleSpec) decode(content *hcl.BodyContent, blockLabels []blockLab
 			if u.Unknown() {
 				// If any block Body is unknown, then the entire block value
 				// must be unknown
-				return cty.UnknownVal(s.impliedType().WithoutOptionalAttributesDeep()), diags
+				return prepareBodyVal(cty.UnknownVal(s.impliedType().WithoutOptionalAttributesDeep()), childBlock.Body), diags
 			}
 		}
 
@@ -772,7 +772,7 @@ func (s *BlockSetSpec) decode(content *hcl.BodyContent, blockLabels []blockLabel
 			if u.Unknown() {
 				// If any block Body is unknown, then the entire block value
 				// must be unknown
-				return cty.UnknownVal(s.impliedType().WithoutOptionalAttributesDeep()), diags
+				return prepareBodyVal(cty.UnknownVal(s.impliedType().WithoutOptionalAttributesDeep()), childBlock.Body), diags
 			}
 		}
 
@@ -931,7 +931,7 @@ func (s *BlockMapSpec) decode(content *hcl.BodyContent, blockLabels []blockLabel
 			if u.Unknown() {
 				// If any block Body is unknown, then the entire block value
 				// must be unknown
-				return cty.UnknownVal(s.impliedType().WithoutOptionalAttributesDeep()), diags
+				return prepareBodyVal(cty.UnknownVal(s.impliedType().WithoutOptionalAttributesDeep()), childBlock.Body), diags
 			}
 		}
 
@@ -1086,7 +1086,7 @@ func (s *BlockObjectSpec) decode(content *hcl.BodyContent, blockLabels []blockLa
 			if u.Unknown() {
 				// If any block Body is unknown, then the entire block value
 				// must be unknown
-				return cty.UnknownVal(s.impliedType().WithoutOptionalAttributesDeep()), diags
+				return prepareBodyVal(cty.UnknownVal(s.impliedType().WithoutOptionalAttributesDeep()), childBlock.Body), diags
 			}
 		}
 
